@@ -20,7 +20,20 @@ func (c *Ctx) scopeAll() map[*ssa.Function]bool {
 	return out
 }
 
-// lockTargets: every struct of the SDK with a sync.Mutex field.
+// scopePkg: every source function of one package of the SDK module.
+func (c *Ctx) scopePkg(names ...string) map[*ssa.Function]bool {
+	out := map[*ssa.Function]bool{}
+	for _, f := range c.M.Funcs {
+		for _, n := range names {
+			if f.Pkg == c.M.SSA[n] {
+				out[f] = true
+			}
+		}
+	}
+	return out
+}
+
+// lockTargets: every struct of the given packages with a sync.Mutex field.
 func (c *Ctx) lockTargets(pkgs ...string) map[*types.Named]string {
 	out := map[*types.Named]string{}
 	for _, pn := range pkgs {
@@ -52,43 +65,132 @@ func (c *Ctx) lockTargets(pkgs ...string) map[*types.Named]string {
 	return out
 }
 
+var pureAPI = []string{"Unserialize", "Validate", "Serialize", "ValidateCompatibility", "UnserializeType", "ValidateType", "SerializeType", "ReflectedType", "TypeID"}
+
+const wellFormed = "well-formed schemas (DESIGN 3.0.5): A1 built by the public constructors and linked, so cycles pass only through RefSchema's link; " +
+	"A2 table entries declared by the schema are non-nil; A3 a default does not re-enter the recursion it belongs to; A4 user callbacks are the user's responsibility"
+
 func init() {
 	register(&PropSpec{
-		ID:          "C05",
-		Explanation: "R-LOCKSET",
+		ID: "C04",
+		Explanation: "Decided: no reachable unguarded panic site of three classes in the functions reachable from Unserialize/Validate/Serialize/ValidateCompatibility " +
+			"(and typed variants) of all Serializable implementers, outside recover scopes - R-ASSERT: every single-value type assertion is justified by dynamic-type " +
+			"provenance, a validator summary, a TypeID gate, the meta-root argument, or a named structural exception class; R-NILGUARD: every dereference of a field or " +
+			"parameter that the repository itself compares with nil is dominated by a non-nil fact on the same access path (dominator facts + must-dataflow for lazy-init); " +
+			"R-MAPNIL: no dereference of a pointer/interface map element looked up without presence check unless the key provably comes from the same map. " +
+			"NOT decided: panic classes outside these (reflect kind/assignability preconditions, arithmetic, index bounds, third-party code), termination of recursion, " +
+			"hence level 'other', not a proof of totality.",
+		Assumptions: []string{wellFormed},
 		Rules: []func(*Ctx){
-			func(c *Ctx) { c.ruleLockset("R-LOCKSET", c.lockTargets("atp", "schema")) },
+			func(c *Ctx) { c.ruleAssert("R-ASSERT", c.scopeData()); c.R.Floor("R-ASSERT", 14) },
+			func(c *Ctx) { c.ruleNilGuard("R-NILGUARD", c.scopeData()); c.R.Floor("R-NILGUARD", 30) },
+			func(c *Ctx) { c.ruleMapNil("R-MAPNIL", c.scopePkg("schema")); c.R.Floor("R-MAPNIL", 10) },
 		},
 	})
 	register(&PropSpec{
-		ID:          "C06",
-		Explanation: "R-ATOMIC R-MUSTPASS R-WG R-PAIR",
+		ID: "C05",
+		Explanation: "Decided: R-LOCKSET - for every struct with a mutex (ATP client, ATP server session, callable step) the guarded fields are inferred (accessed under " +
+			"the mutex and mutable after construction; shared cbor encoders, the client's pending table, signal table and running flag are required to be guarded) and every " +
+			"access outside construction holds the mutex on all paths (must-lockset dataflow, helpers inherit the locks of all call sites, a goroutine started inside a " +
+			"critical section and joined before the unlock counts as inside). This is the structural part of 'never corrupted by interleaved writes / delivered to a different " +
+			"run'. NOT decided: interleavings as such, transport chunking, CBOR fidelity, equality of results with in-process calls.",
+		Assumptions: []string{"callers that obtain the raw codec through the exported Encoder()/Decoder() accessors are outside the premise",
+			"the 60 s send time-out arm of sendRuntimeMessage (transport stall) is outside the premise"},
 		Rules: []func(*Ctx){
-			func(c *Ctx) { c.ruleAtomic("R-ATOMIC") },
+			func(c *Ctx) { c.ruleLockset("R-LOCKSET", c.lockTargets("atp", "schema")); c.R.Floor("R-LOCKSET", 15) },
+		},
+	})
+	register(&PropSpec{
+		ID: "C06",
+		Explanation: "Decided (structural necessary conditions for the absence of lost hand-overs and lost wake-ups in the client): R-ATOMIC - the running flag is cleared only " +
+			"in a critical section that also scans the pending table, and set in the section that tested it and starts the read loop; presence-check-then-insert on guarded " +
+			"tables happens in one critical section; R-MUSTPASS - every exit of the read loop has cleared the running flag since the last read; R-PAIR - the result store is " +
+			"followed by Signal in the same critical section and Wait is guarded by a test of the condition; R-WG - Add dominates each go whose goroutine calls Done, Done is " +
+			"reached on every exit, Close cancels the context before every wait; R-BLOCKLOCK - no blocking operation under the client mutex except the encoder write (one " +
+			"documented exception). NOT decided: liveness under all schedules as such; deadlocks that need reasoning about the peer.",
+		Assumptions: []string{"sync.Cond has no spurious wake-ups (Go semantics)", "the peer behaves correctly (property premise)"},
+		Rules: []func(*Ctx){
+			func(c *Ctx) { c.ruleAtomic("R-ATOMIC"); c.R.Floor("R-ATOMIC", 4) },
 			func(c *Ctx) { c.ruleMustPass("R-MUSTPASS") },
-			func(c *Ctx) { c.ruleWG("R-WG") },
 			func(c *Ctx) { c.rulePair("R-PAIR") },
+			func(c *Ctx) { c.ruleWG("R-WG"); c.R.Floor("R-WG", 8) },
+			func(c *Ctx) { c.ruleBlockLock("R-BLOCKLOCK"); c.R.Floor("R-BLOCKLOCK", 2) },
+		},
+	})
+	register(&PropSpec{
+		ID: "C07",
+		Explanation: "Decided: R-CHAN - no goroutine can send on the error channel after its close (close must be joined with all sending goroutines), the report loop only " +
+			"stops when the channel is closed, no report is sent non-blockingly, and the client's signal channels are closed/sent under one discipline; R-RECOVER - every " +
+			"goroutine that runs step code does so below a recover scope; R-EXACTLYONE - every path of the step runner, including the panic path through the recover handler, " +
+			"emits exactly one terminal message; R-WG for the server goroutines; R-MAPNIL - unknown step / signal IDs cannot be dereferenced (server side of C11). " +
+			"NOT decided: byte-level behaviour of the CBOR decoder on truncated input; behaviour of user step code.",
+		Assumptions: []string{"channel semantics of Go (send on closed channel panics; send without receiver blocks)"},
+		Rules: []func(*Ctx){
+			func(c *Ctx) { c.ruleChan("R-CHAN") },
 			func(c *Ctx) { c.ruleRecover("R-RECOVER") },
+			func(c *Ctx) { c.ruleExactlyOne("R-EXACTLYONE") },
+			func(c *Ctx) { c.ruleWG("R-WG"); c.R.Floor("R-WG", 8) },
+			func(c *Ctx) { c.ruleMapNil("R-MAPNIL", c.scopePkg("schema", "atp")); c.R.Floor("R-MAPNIL", 10) },
 		},
 	})
 	register(&PropSpec{
-		ID:          "C12",
-		Explanation: "R-MAPORDER",
+		ID: "C08",
+		Explanation: "Decided: R-DELIVER - every decode/unmarshal error in the client reaches the affected waiter(s) (result store + wake-up) or the caller's return value, and " +
+			"every decoded runtime message is handed to a handler; R-MUSTPASS - every exit of the read loop has failed all waiters or found none, and cleared the running " +
+			"flag in that critical section, so later Execute calls start a new reader (which fails again on a dead stream); R-WG(c) - Close cancels before it waits. " +
+			"NOT decided: which corruptions the CBOR decoder reports as errors; timing.",
+		Assumptions: []string{"every decode call may fail at any time (the property's fault model)"},
 		Rules: []func(*Ctx){
-			func(c *Ctx) { c.ruleMapOrder("R-MAPORDER", c.M, c.scopeAll()) },
+			func(c *Ctx) { c.ruleDeliver("R-DELIVER") },
+			func(c *Ctx) { c.ruleMustPass("R-MUSTPASS") },
+			func(c *Ctx) { c.ruleAtomic("R-ATOMIC"); c.R.Floor("R-ATOMIC", 4) },
+			func(c *Ctx) { c.ruleWG("R-WG"); c.R.Floor("R-WG", 8) },
+		},
+	})
+	register(&PropSpec{
+		ID: "C11",
+		Explanation: "Decided: R-DOM/R-FLOW - the step and signal handlers are invoked at exactly one site, outside loops, dominated by a successful Validate of the very value " +
+			"they receive; CallStep/CallSignal call the step only after a successful Unserialize and pass exactly its result; an accepting return of Call follows the " +
+			"declared-output lookup and carries the output schema's verdict; R-ERRPROV - unknown ID, rejected input and undeclared output each map to their own error type; " +
+			"R-MAPNIL - unknown step/signal/output IDs are never dereferenced; R-STEPDATA + R-ATOMIC - the per-run step data is inserted only on a miss of the same run ID, in " +
+			"the critical section that looked it up, and never removed or replaced. NOT decided: what handlers do; equality of results.",
+		Assumptions: []string{"A4: handler and initializer are user callbacks"},
+		Rules: []func(*Ctx){
+			func(c *Ctx) { c.ruleStepDom("R-DOM") },
+			func(c *Ctx) { c.ruleStepErrors("R-ERRPROV") },
+			func(c *Ctx) { c.ruleStepData("R-STEPDATA") },
+			func(c *Ctx) { c.ruleAtomic("R-ATOMIC"); c.R.Floor("R-ATOMIC", 4) },
+			func(c *Ctx) { c.ruleMapNil("R-MAPNIL", c.scopePkg("schema")); c.R.Floor("R-MAPNIL", 10) },
+		},
+	})
+	register(&PropSpec{
+		ID: "C12",
+		Explanation: "Decided: R-EFFECT - every write instruction (store, map update, delete, append into a non-fresh slice, mutating library call) in the functions reachable from " +
+			"the pure API is classified by an interprocedural origin analysis; only writes to memory allocated during the call, and idempotent lazy cache fills (written only " +
+			"while nil, in a function whose sole input is the receiver), are accepted; R-MAPORDER - every loop over a map has early exits of one verdict class and sorts " +
+			"order-sensitive accumulations with a total order unless they only feed an error message. NOT decided: equality of repeated results as values.",
+		Assumptions: []string{wellFormed, "library effects come from a hand-written table; an unclassified library callee fails the check"},
+		Rules: []func(*Ctx){
+			func(c *Ctx) { c.ruleMapOrder("R-MAPORDER", c.M, c.scopePkg("schema")); c.R.Floor("R-MAPORDER", 30) },
+			func(c *Ctx) { c.ruleEffect("R-EFFECT", c.entryData(pureAPI...), false, true); c.R.Floor("R-EFFECT", 100) },
+		},
+	})
+	register(&PropSpec{
+		ID: "C13",
+		Explanation: "Decided: a data race needs an unsynchronised write to shared memory. R-EFFECT (same origin analysis as C12, entry set extended with step/signal calls and the " +
+			"unit definitions) - every write reachable from concurrently callable API goes to memory allocated during the call, or happens while a mutex field of the same " +
+			"receiver is held; lazy cache fills are NOT excused here; R-LOCKSET/R-ATOMIC for the step-data table. The schema package uses no atomics and no channels, so " +
+			"mutexes are the only synchronisation to recognise. NOT decided: races inside third-party packages; result equality with a sequential run.",
+		Assumptions: []string{wellFormed, "regexp.Regexp is documented safe for concurrent use"},
+		Rules: []func(*Ctx){
 			func(c *Ctx) {
-				c.ruleEffect("R-EFFECT", c.entryData("Unserialize", "Validate", "Serialize", "ValidateCompatibility", "UnserializeType", "ValidateType", "SerializeType", "ReflectedType", "TypeID"), false, true)
+				entries := append(c.entryData(pureAPI...), c.entryStep()...)
+				entries = append(entries, c.entryUnits()...)
+				c.ruleEffect("R-EFFECT", entries, true, false)
+				c.R.Floor("R-EFFECT", 100)
 			},
-		},
-	})
-	register(&PropSpec{
-		ID:          "C04",
-		Explanation: "R-ASSERT over functions reachable from the data API",
-		Assumptions: []string{"A1-A4 (DESIGN §3.0.5)"},
-		Rules: []func(*Ctx){
-			func(c *Ctx) { c.ruleAssert("R-ASSERT", c.scopeData()) },
-			func(c *Ctx) { c.ruleNilGuard("R-NILGUARD", c.scopeData()) },
-			func(c *Ctx) { c.ruleMapNil("R-MAPNIL", c.scopeAll()) },
+			func(c *Ctx) { c.ruleLockset("R-LOCKSET", c.lockTargets("schema")); c.R.Floor("R-LOCKSET", 2) },
+			func(c *Ctx) { c.ruleAtomic("R-ATOMIC"); c.R.Floor("R-ATOMIC", 4) },
 		},
 	})
 }
